@@ -673,13 +673,8 @@ class Plucker(SMUserList):
             # lines are parallel
             l = np.linalg.norm(np.cross(l1.w, l1.v - l2.v * np.dot(l1.w, l2.w) / np.dot(l2.w, l2.w))) / np.dot(l1.w, l1.w)
         else:
-            # lines are not parallel
-            if abs(l1 * l2) < 10*_eps:
-                # lines intersect at a point
-                l = 0
-            else:
-                # lines don't intersect, find closest distance
-                l = abs(np.dot(l1.w, l2.v) + np.dot(l2.w, l1.v)) / np.linalg.norm(np.cross(l1.w, l2.w))
+            # lines are not parallel: closest distance (zero, to rounding, if they intersect)
+            l = abs(np.dot(l1.w, l2.v) + np.dot(l2.w, l1.v)) / np.linalg.norm(np.cross(l1.w, l2.w))
         return l
 
     
